@@ -39,7 +39,7 @@ ASSUMPTIONS = [
 ]
 FLOORS = {"repeat_probes": (1500, 30000), "bound_checks": (800, 15000), "effect_sequences_checked": (150, 3000), "histories_needing_hits": (150, 3000)}
 SHARDS_QUICK = 4
-FEATURES = {"allopts": True, "preset_templates": False}
+FEATURES = {"allopts": True, "preset_templates": False, "domains": False}
 
 
 def projection(mr, o):
@@ -205,7 +205,7 @@ def run_history(ctx, program, history, tag="random"):
 
 
 def plain_history(rng, length, keys):
-    return U.history(rng, length, keys, templated=0.05)
+    return U.history(rng, length, keys, templated=0.05, closed_only=True)
 
 
 def run(ctx):
